@@ -13,7 +13,7 @@ FOCUS = {
     "C04": dict(gens=[("core", 14), ("file", 14)], quick=70, thorough=800, what="clear-text scan of store, exports and log after every step"),
     "C05": dict(gens=[("core", 16)], quick=120, thorough=1500, what="every issued key signs verifiably iff unlocked"),
     "C06": dict(gens=[("core", 16), ("file", 16)], quick=70, thorough=800, what="plot-key issuance interleaved with everything else"),
-    "C12": dict(gens=[("fault", 12)], quick=150, thorough=1500, what="faults at writes and commits of every mutating call"),
+    "C12": dict(gens=[("fault", 12), ("fault", 14)], quick=110, thorough=1200, what="faults at writes and commits of every mutating call"),
 }
 
 
@@ -28,20 +28,50 @@ def desc(e):
     return s
 
 
-def expand_faults(behs, per=3):
-    """C12: TLC chose the call and the fault kind; sweep the write index of failwrite faults."""
-    out = []
+def expand_faults(behs, cap):
+    """C12: TLC chose the call and the fault kind; sweep where the fault strikes.  All generated behaviours come
+    first; a fifth of the remaining room goes to commit-index variants (an operation that wrongly commits in several
+    transactions is hit at each of them), the rest to write-index variants of failwrite faults.  Variants are dealt
+    round-robin over the behaviours, each behaviour starting its sweep at a different index, so that a cap cuts
+    every sweep evenly and every index is tried on some behaviour."""
+    out = list(behs)
+    room = max(0, cap - len(out))
+
+    def deal(sweeps, limit):
+        got, r = [], 0
+        while len(got) < limit and any(len(vs) > r for vs in sweeps):
+            for vs in sweeps:
+                if len(vs) > r and len(got) < limit:
+                    got.append(vs[r])
+            r += 1
+        return got
+
+    csweeps = []
     for b in behs:
-        out.append(b)
+        vs = []
+        cidx = [i for i, st in enumerate(b) if st.get("fault") in ("failcommit", "crashbefore", "crashafter")]
+        for i in cidx[:2]:
+            for cn in (2, 3, 1):
+                if cn != b[i].get("c"):
+                    c = copy.deepcopy(b)
+                    c[i]["c"] = cn
+                    vs.append(c)
+        csweeps.append(vs)
+    out += deal(csweeps, room // 5)
+    wsweeps = []
+    for j, b in enumerate(behs):
         idx = [i for i, st in enumerate(b) if st.get("fault") == "failwrite"]
+        vs = []
         for i in idx[:1]:
-            for k in range(1, 26):
-                if k == b[i].get("k"):
-                    continue
-                c = copy.deepcopy(b)
-                c[i]["k"] = k
-                out.append(c)
-    return out
+            for q in range(25):
+                k = 1 + (q * 7 + j * 3) % 25        # every behaviour walks 1..25 in a different order
+                if k != b[i].get("k"):
+                    c = copy.deepcopy(b)
+                    c[i]["k"] = k
+                    vs.append(c)
+        wsweeps.append(vs)
+    out += deal(wsweeps, cap - len(out))
+    return out[:cap]
 
 
 def nontrivial(steps):
@@ -136,11 +166,9 @@ def run(prop, tier, seed):
         b, w = vlib.tlc_generate(d, "WalletGen.tla", cfg, n, depth, seed + 31 * gi)
         behs += b
     behs = vlib.dedup(behs)
-    behs = behs[:(160 if tier == "quick" else 4000)]
+    behs = behs[:((220 if prop == "C12" else 160) if tier == "quick" else 4000)]
     if prop == "C12":
-        behs = vlib.dedup(expand_faults(behs))
-        cap = 500 if tier == "quick" else 12000
-        behs = behs[:cap]
+        behs = vlib.dedup(expand_faults(behs, 500 if tier == "quick" else 12000))
     scen = mk_scen(behs, seed)
     log("generated %d distinct behaviours" % len(scen))
     sf, tf = os.path.join(d, "scen.json"), os.path.join(d, "trace.ndjson")
